@@ -1,6 +1,7 @@
 # C10 — aggregations emit exactly one correct point per bucket, once, in order.
 # Harness A (VerifC10Hist): bounded histories through the real run() goroutine + ghost model.
 # Harness B (VerifC10Func): the ten functions against an independent specification.
+# Harness C (VerifC10Step): one-step induction (invariant + ghost relation) from an arbitrary pre-state.
 
 _C10_FUNS = ["avg", "count", "delta", "derive", "last", "max", "min", "stdev", "sum", "percentiles"]
 
@@ -22,23 +23,25 @@ _C10_HIST_OPTS = {"solver": "z3-new-t", "timeout_ms": 30000, "thorough": {"budge
 _C10_FUNC_OPTS = {"solver": "cvc5", "timeout_ms": 120000}
 
 PROPS["C10"] = {
-    "bounds": "histories from the empty state of exactly 3 events (all shorter ones are their prefixes; every assertion is checked after each event) over {tick, point a1, point b1} with regex ^(a|b)[0-9]$ and outFmt $1, function sum, Interval 10, symbolic Wait < 2^16, symbolic uint32 timestamps, unconstrained float64 values, symbolic non-decreasing clock (uint32 start, 16-bit advances, now >= Wait), tick instant anywhere between the previous tick instant and the clock; histories of 2 events for each of the ten functions, for 3-4 names incl. two names sharing a key and a non-matching name with the cache on, for outFmt without capture group, for Interval symbolic in [1,2^16) and Interval in {1,60}; thorough: 3 events for every function, with symbolic Interval, with 3 names + cache, and 4 events over {tick, point a1}; functions in isolation: 1..3 values per bucket, finite float64 of magnitude <= 1e300 with symbolic uint32 timestamps",
+    "bounds": "histories from the empty state of exactly 3 events (all shorter ones are their prefixes; every assertion is checked after each event) over {tick, point a1, point b1} (quick: all except those starting b1,a1 or b1,b1, which mirror a1,b1 / a1,a1 and run in the thorough tier) with regex ^(a|b)[0-9]$ and outFmt $1, function sum, Interval 10, symbolic Wait < 2^16, symbolic uint32 timestamps, unconstrained float64 values, symbolic non-decreasing clock (uint32 start, 16-bit advances, now >= Wait), tick instant anywhere between the previous tick instant and the clock; histories of 2 events for each of the ten functions, for 3-4 names incl. two names sharing a key and a non-matching name with the cache on, for outFmt without capture group, for Interval symbolic in [1,2^16) and Interval in {1,60}; thorough: 3 events for every function, with symbolic Interval, with 3 names + cache, and 4 events over {tick, point a1}; one-step induction: arbitrary pre-state satisfying the invariant (tsList strictly ascending = open first-level buckets, buckets holding a processor start at or above the previous cutoff+1 <= now-Wait+1) with <= 2 (thorough 3) first-level buckets x key subsets of {a,b}, arbitrary bucket starts and accumulated sums, one arbitrary event, function sum, Interval 10 (thorough symbolic): covers histories of any length with at most that many simultaneously open first-level buckets; functions in isolation: 1..3 values per bucket, finite float64 of magnitude <= 1e300 with symbolic uint32 timestamps",
     "outside": "NaN/Inf values inside the functions (harness B; harness A passes unconstrained values through sum); more than 3 values per bucket and more than 3 (4) events; %f rendering of the value (the engine compares the float64 handed to fmt.Sprintf, the native replay compares to 1e-6); the real wall-clock ticker clock.AlignedTick; clocks that go backwards and now < Wait (unsigned wrap-around of now-Wait); Interval 0 (C14); the snapshot and shutdown branches of run(); math.Pow(x,2) is modelled as x*x",
     "assumptions": ["non-decreasing harness clock, now >= Wait", "a late point (bucket start <= now-Wait) for a bucket that was not yet emitted may either contribute to the still open bucket or be counted as too old - exactly one of the two (DESIGN.md ghost model)", "derive emits no line for a bucket with fewer than two distinct timestamps (the property text says one line per bucket; the derivative is undefined there - flagged, not counted as a violation)", "the timestamp range tracker (statistics only) has already seen both extreme timestamps, so its comparisons do not fork"],
     "groups": [
-        # 3 events, split by the first two events so that the parts run in parallel
+        # 3 events, split by the first two events so that the parts run in parallel; histories starting
+        # b1,a1 / b1,b1 mirror a1,b1 / a1,a1 (keys are opaque map keys to the aggregator): thorough tier
     ] + [
         {"pkg": "aggregator", "hdir": "aggregator", "opts": _C10_HIST_OPTS,
-         "specs": [_c10_hist("sum/3ev/first=%s" % n, events="xxx", first=f) for f, n in part] +
+         "specs": [_c10_hist("sum/3ev/first=%s" % n, t, events="xxx", first=f) for f, n, t in part] +
                   [_c10_hist("%s/3ev/first=%s" % (fun, n), "thorough", events="xxx", first=f, fun=fun)
-                   for fun in ["max", "derive", "percentiles"] for f, n in part]}
-        for part in [[("1,1", "a1,a1")], [("1,2", "a1,b1")], [("2,1", "b1,a1")], [("2,2", "b1,b1")],
-                     [("0", "tick"), ("1,0", "a1,tick"), ("2,0", "b1,tick")]]
+                   for fun in ["max", "derive", "percentiles"] for f, n, t in part] + extra}
+        for part, extra in [([("1,1", "a1,a1", "quick")], []), ([("1,2", "a1,b1", "quick")], []),
+                            ([("2,1", "b1,a1", "thorough")], []), ([("2,2", "b1,b1", "thorough")], []),
+                            ([("0", "tick", "quick"), ("1,0", "a1,tick", "quick"), ("2,0", "b1,tick", "quick")],
+                             [_c10_hist(f + "/2ev", fun=f) for f in _C10_FUNS[:5]])]
     ] + [
         # 2 events, every function
         {"pkg": "aggregator", "hdir": "aggregator", "opts": _C10_HIST_OPTS,
-         "specs": [_c10_hist(f + "/2ev", fun=f) for f in _C10_FUNS[:5]] +
-                  [_c10_hist(f + "/3ev", "thorough", fun=f, events="xxx") for f in ["avg", "count", "delta"]]},
+         "specs": [_c10_hist(f + "/3ev", "thorough", fun=f, events="xxx") for f in ["avg", "count", "delta"]]},
         {"pkg": "aggregator", "hdir": "aggregator", "opts": _C10_HIST_OPTS,
          "specs": [_c10_hist(f + "/2ev", fun=f) for f in _C10_FUNS[5:]] +
                   [_c10_hist(f + "/3ev", "thorough", fun=f, events="xxx") for f in ["last", "min", "stdev"]]},
@@ -52,6 +55,11 @@ PROPS["C10"] = {
                    _c10_hist("sum/3ev/I=symbolic/16-bit-clock", "thorough", events="xxx", intervals="sym", narrow="1"),
                    _c10_hist("sum/3ev/3names/cache", "thorough", events="xxx", names="xxx", cache="1"),
                    _c10_hist("sum/4ev/1name", "thorough", events="xxxx", names="x")]},
+        # one-step induction from an arbitrary pre-state
+        {"pkg": "aggregator", "hdir": "aggregator", "opts": _C10_HIST_OPTS,
+         "specs": [spec("C10/step/open<=2", "VerifC10Step", {"intervals": "10", "waits": "sym", "maxopen": "xx"}),
+                   spec("C10/step/open<=3", "VerifC10Step", {"intervals": "10", "waits": "sym", "maxopen": "xxx"}, tier="thorough"),
+                   spec("C10/step/open<=2/I=symbolic", "VerifC10Step", {"intervals": "sym", "waits": "sym", "maxopen": "xx"}, tier="thorough")]},
         # the functions in isolation
         {"pkg": "aggregator", "hdir": "aggregator", "opts": _C10_FUNC_OPTS,
          "specs": [_c10_func(f) for f in _C10_FUNS if f != "stdev"] + [_c10_func("stdev", extra="1"), _c10_func("percentiles", extra="1")]},
